@@ -14,7 +14,7 @@ use super::load_error::{LoadError, LoadErrorImpl, load_error};
 use super::metadata::{MetadataField, ModelMetadata};
 use super::{Model, ModelOptions, OptimizeMode};
 use crate::constant_storage::{ArcSlice, ArcTensorView, ConstantStorage};
-use crate::graph::{CaptureEnv, ConstantNodeData, Dimension, Graph, NodeId};
+use crate::graph::{CaptureEnv, ConstantNodeData, Dimension, Graph, Node, NodeId};
 use crate::op_registry::rten_registry::{OpLoadContext, convert_dtype};
 use crate::op_registry::{OpRegistry, ReadOpError};
 use crate::optimize::GraphOptimizer;
@@ -195,6 +195,32 @@ fn load_graph(
         }
     }
 
+    // Graph inputs, outputs and captures must refer to value (or, for outputs,
+    // constant) nodes. The rest of the crate relies on this.
+    for id in input_ids.iter().chain(graph.captures()) {
+        if !matches!(graph.get_node(*id), Some(Node::Value(_))) {
+            return Err(load_error!(
+                GraphError,
+                None,
+                "graph input or capture {} is not a value node",
+                id
+            ));
+        }
+    }
+    for id in &output_ids {
+        if !matches!(
+            graph.get_node(*id),
+            Some(Node::Value(_) | Node::Constant(_))
+        ) {
+            return Err(load_error!(
+                GraphError,
+                None,
+                "graph output {} is not a value or constant node",
+                id
+            ));
+        }
+    }
+
     if let OptimizeMode::On(opts) = optimize {
         let optimizer = GraphOptimizer::new();
         optimizer
@@ -257,10 +283,19 @@ fn add_graph_operator(
                 continue;
             }
             let index_usize = node_index as usize;
-            if let Some(node_id) = node_id_from_index.get(&index_usize) {
-                inputs.push(Some(*node_id))
-            } else {
-                return Err(load_error!(GraphError, name, "operator input is invalid"));
+            match node_id_from_index.get(&index_usize) {
+                // Operator inputs are values or constants, never operators.
+                Some(node_id)
+                    if matches!(
+                        graph.get_node(*node_id),
+                        Some(Node::Value(_) | Node::Constant(_))
+                    ) =>
+                {
+                    inputs.push(Some(*node_id))
+                }
+                _ => {
+                    return Err(load_error!(GraphError, name, "operator input is invalid"));
+                }
             }
         }
     }
@@ -273,10 +308,14 @@ fn add_graph_operator(
                 continue;
             }
             let index_usize = node_index as usize;
-            if let Some(node_id) = node_id_from_index.get(&index_usize) {
-                outputs.push(Some(*node_id))
-            } else {
-                return Err(load_error!(GraphError, name, "operator output is invalid"));
+            match node_id_from_index.get(&index_usize) {
+                // Operators can only write to value nodes.
+                Some(node_id) if matches!(graph.get_node(*node_id), Some(Node::Value(_))) => {
+                    outputs.push(Some(*node_id))
+                }
+                _ => {
+                    return Err(load_error!(GraphError, name, "operator output is invalid"));
+                }
             }
         }
     }
